@@ -1246,7 +1246,7 @@ def correspond(ctx):
     lines, expect = [], []
     for cfg in fixed_cases():
         run_case(ctx, lines, expect, cfg)
-    n_rand = 2500 if not ctx.thorough else 36000
+    n_rand = 2000 if not ctx.thorough else 36000
     for _ in range(n_rand):
         run_case(ctx, lines, expect, gen_any(rng))
     if ctx.thorough:
